@@ -23,6 +23,11 @@ func harnessDir() string {
 
 // overlay maps the harness files into /repo as virtual files.
 func overlay() (map[string][]byte, map[string]string) {
+	ov, real := overlayFiles(os.Getenv("VERIF_WITH_REPO_TESTS") != "")
+	return ov, real
+}
+
+func overlayFiles(withRepoTests bool) (map[string][]byte, map[string]string) {
 	ov := map[string][]byte{}
 	real := map[string]string{}
 	add := func(sub, dst, prefix string) {
@@ -33,6 +38,19 @@ func overlay() (map[string][]byte, map[string]string) {
 				panic(err)
 			}
 			virt := filepath.Join(repoDir, dst, prefix+filepath.Base(f))
+			ov[virt] = b
+			real[virt] = f
+		}
+	}
+	if withRepoTests {
+		// the repository's own unit tests, compiled as ordinary files of the package
+		files, _ := filepath.Glob(filepath.Join(repoDir, "*_test.go"))
+		for _, f := range files {
+			b, err := os.ReadFile(f)
+			if err != nil {
+				panic(err)
+			}
+			virt := filepath.Join(repoDir, "zz_verif_repotest_"+strings.TrimSuffix(filepath.Base(f), "_test.go")+".go")
 			ov[virt] = b
 			real[virt] = f
 		}
@@ -66,6 +84,8 @@ func main() {
 		os.Exit(checkCmd(os.Args[2:]))
 	case "replay":
 		os.Exit(replayCmd(os.Args[2:]))
+	case "selftest":
+		os.Exit(selftestCmd(os.Args[2:]))
 	default:
 		fmt.Fprintln(os.Stderr, "unknown command", os.Args[1])
 		os.Exit(2)
